@@ -13,10 +13,13 @@ E = math.e
 FOREIGN = [("3", 3), ("2.5", 2.5), ("'x'", "x"), ("None", None), ("[]", "LIST"), ("Point()", "POINT")]
 N_VALUES = [(1, True), (2, True), (7, True), (1000, True), (0, False), (-1, False), (-3, False),
             (2.0, True), (5.0, True), (1.0, True), (0.0, False), (-2.0, False), (2.5, False), (0.5, False),
-            (1e-9, False), ("2", False), (None, False), (math.inf, False)]
-EXP_BASES = [(0.5, True), (1, True), (1.0, True), (2, True), (E, True), (10.0, True), (1e-9, True),
+            (1e-9, False), ("2", False), (None, False), (math.inf, False),
+            (2.000000001, False), (1.9999999999999998, False), (2.0000000000001, False), (3 - 1e-12, False),
+            (1000000000.5, False), (1e300, True)]
+EXP_BASES = [(0.5, True), (1, True), (1.0, True), (2, True), (E, True), (10.0, True), (1e-9, True), (1e-300, True),
              (0, False), (0.0, False), (-1, False), (-0.5, False), (-E, False)]
-LOG_BASES = [(0.5, True), (2, True), (E, True), (10.0, True), (1e-9, True), (1, False), (1.0, False),
+LOG_BASES = [(0.5, True), (2, True), (E, True), (10.0, True), (1e-9, True), (1 + 1e-12, True), (1 - 1e-12, True),
+             (1e-300, True), (1, False), (1.0, False),
              (0, False), (0.0, False), (-1, False), (-0.5, False)]
 NAMES = [("x", True), ("x1", True), ("_a", True), ("9", True), ("long_name_2", True), ("αβ", True),
          ("self", True), ("kwargs", True), ("", False), ("a b", False), ("a-b", False), ("x.y", False),
